@@ -255,6 +255,23 @@ def initial_column_oracle(args):
 
 
 def search(ctx):
+    # deterministic events pinned to grid times (scheduled jumps; no stochastic channel): entry k is still the value at k*dt — the dense
+    # "apply once at t_k" reference of C14, here for what C15 says about the columns, both orders, with the event at the first, an inner
+    # and the last grid time
+    from drivers import C14
+
+    for order in (1, 2):
+        for kj in (1, 3, 5):
+            a = dict(order=order, L=2, dt=0.05, k_total=5, jumps=[(kj, [0], "x")], state="y+")
+            try:
+                with common.time_limit(120):
+                    why = C14.jump_oracle(a)
+            except common.HardTimeout:
+                continue
+            ctx.case(nontrivial_key=("pinned-event", order, kj))
+            ctx.count("columns_with_pinned_events")
+            if why:
+                ctx.violation("pinned-event-columns", f"with a deterministic event at grid index {kj}: {why}", {"oracle": "pinned", "args": a})
     for solver, order in (("TJM", 1), ("TJM", 2), ("MCWF", 1), ("Lindblad", 1)):
         for (k, dt) in ((1, 0.1), (3, 0.1)):
             a = dict(k=k, dt=dt, solver=solver, order=order)
@@ -294,6 +311,10 @@ def search(ctx):
 
 def replay(ctx, data):
     rp = data.get("replay", data)
+    if rp.get("oracle") == "pinned":
+        from drivers import C14
+
+        return C14.jump_oracle(rp["args"])
     if rp.get("oracle") == "solver":
         return solver_oracle(rp["args"])
     if rp.get("oracle") == "col0":
